@@ -51,6 +51,9 @@ struct Preprocessor {
     strict: bool,
     stored_macros: HashMap<Vec<u8>, Rc<SExp>>,
     macro_output_depth: usize,
+    // The files whose include forms are being followed right now, outermost
+    // first.
+    include_chain: Vec<String>,
 }
 
 // How many times macro output may in turn be the call of a macro.
@@ -106,6 +109,7 @@ impl Preprocessor {
             strict: opts.dialect().strict,
             stored_macros: HashMap::default(),
             macro_output_depth: 0,
+            include_chain: Vec::new(),
         }
     }
 
@@ -221,6 +225,7 @@ impl Preprocessor {
         let embedded = desc.kind.is_some();
 
         let (full_name, content) = self.opts.read_new_file(self.opts.filename(), name_string)?;
+        let include_loc = desc.nl.clone();
         includes.push(IncludeDesc {
             name: full_name.as_bytes().to_vec(),
             ..desc
@@ -236,11 +241,25 @@ impl Preprocessor {
             return Ok(());
         }
 
+        // A file that includes itself, directly or through other files, would be
+        // followed without end.
+        if self.include_chain.contains(&full_name) {
+            return Err(CompileErr(
+                include_loc,
+                format!("include file {full_name} includes itself"),
+            ));
+        }
+
         let program_form = parsed[0].clone();
         if let Some(l) = program_form.proper_list() {
+            self.include_chain.push(full_name);
             for elt in l.iter() {
-                self.process_pp_form(includes, Rc::new(elt.clone()))?;
+                if let Err(e) = self.process_pp_form(includes, Rc::new(elt.clone())) {
+                    self.include_chain.pop();
+                    return Err(e);
+                }
             }
+            self.include_chain.pop();
         }
 
         Ok(())
